@@ -46,7 +46,7 @@ pub fn run_c03(ctx: &Ctx) -> (&'static str, &'static str) {
     let e2c = e2();
     let fb1 = FixedBase::new(&e1c, &g1_gen(), 256);
     let fb2 = FixedBase::new(&e2c, &g2_gen(), 256);
-    let ks = scalar_alphabet(ctx, ctx.tier.pick(5, 12));
+    let ks = scalar_alphabet(ctx, ctx.tier.pick(5, 25));
     let p1: Vec<Pt<Q1>> = par_map(ks.len(), |i| fb1.mul(&ks[i]));
     let p2: Vec<Pt<Q2>> = par_map(ks.len(), |i| fb2.mul(&ks[i]));
     let a1: Vec<G1Affine> = p1.iter().map(g1aff_of).collect();
@@ -91,7 +91,7 @@ pub fn run_c03(ctx: &Ctx) -> (&'static str, &'static str) {
         },
     );
     // full textbook evaluation on a subset, including points given by coordinates only
-    let nfull = ctx.tier.pick(4usize, 24);
+    let nfull = ctx.tier.pick(4usize, 64);
     let sel: Vec<(usize, usize)> = (0..nfull).map(|t| ((t * 5 + 1) % ks.len(), (t * 7 + 2) % ks.len())).collect();
     ctx.sweep(
         "pairing.textbook",
@@ -157,7 +157,7 @@ pub fn run_c11(ctx: &Ctx) -> (&'static str, &'static str) {
     let gt = GtRef::new();
     let np = pts.len() as u64;
     let inj = ctx.injecting("C11");
-    let maxlen = ctx.tier.pick(4usize, 5);
+    let maxlen = ctx.tier.pick(4usize, 6);
     let first_ml = Bls12::miller_loop([(&prep[1].0, &prep[1].1), (&prep[0].0, &prep[0].1)].iter());
     for len in 0..=maxlen {
         let rad: Vec<u64> = vec![np; len];
@@ -238,6 +238,6 @@ pub fn run_c11(ctx: &Ctx) -> (&'static str, &'static str) {
     ctx.assume("expected values E^(sum a_i b_i mod r) with E the reference e(g1,g2) (C03 ties the single pairing to the textbook evaluation)");
     (
         "exploration",
-        "ALL lists of length 0..4 (quick) / 0..5 (thorough) over the pair alphabet {(g1,g2), ([a]g1,[b]g2), (-[a]g1,[b]g2), (O,g2), (g1,O)} - which contains cancelling combinations and identities at every position - through final_exponentiation(miller_loop(list)), pairing_product (length 2) and pairing_multi_product against e(g1,g2)^(sum a_i b_i); lists of length 8 and 9 with an identity pair at each position; the same prepared elements are reused by every list and the first Miller loop is reproduced bit for bit at the end; non-trivial = non-empty list",
+        "ALL lists of length 0..4 (quick) / 0..6 (thorough) over the pair alphabet {(g1,g2), ([a]g1,[b]g2), (-[a]g1,[b]g2), (O,g2), (g1,O)} - which contains cancelling combinations and identities at every position - through final_exponentiation(miller_loop(list)), pairing_product (length 2) and pairing_multi_product against e(g1,g2)^(sum a_i b_i); lists of length 8 and 9 with an identity pair at each position; the same prepared elements are reused by every list and the first Miller loop is reproduced bit for bit at the end; non-trivial = non-empty list",
     )
 }
